@@ -74,3 +74,44 @@ func HEncodePure() {
 	vr.Assert("c20.deterministic", vr.EqBytes(keep, b2))
 	vr.Assert("c20.msg-unchanged-2", VEqPayloadsExact(snap.Payloads, m.Payloads))
 }
+
+// HEncodeSharedContainers (C20): the transform containers of a proposal may be views of arrays somebody
+// else holds as well (a responder's chosen proposal built as offered.X[:1], two proposals of one SA
+// sharing a list): encoding writes into none of them.  Param: 0 = both proposals in the encoded SA,
+// 1 = only the chosen one (the offered proposal stays with the caller).
+func HEncodeSharedContainers() {
+	offered := &Proposal{ProposalNumber: 1, ProtocolID: vr.U8()}
+	for _, tt := range []uint8{TypeEncryptionAlgorithm, TypePseudorandomFunction, TypeIntegrityAlgorithm, TypeDiffieHellmanGroup, TypeExtendedSequenceNumbers} {
+		vFile(offered, VGenTransform(tt, 1))
+		vFile(offered, VGenTransform(tt, 0))
+	}
+	chosen := &Proposal{ProposalNumber: 2, ProtocolID: offered.ProtocolID}
+	chosen.EncryptionAlgorithm = offered.EncryptionAlgorithm[:1]
+	chosen.PseudorandomFunction = offered.PseudorandomFunction[:1]
+	chosen.IntegrityAlgorithm = offered.IntegrityAlgorithm[:1]
+	chosen.DiffieHellmanGroup = offered.DiffieHellmanGroup[:1]
+	chosen.ExtendedSequenceNumbers = offered.ExtendedSequenceNumbers[:1]
+	sa := &SecurityAssociation{}
+	if vr.Param(0) == 0 {
+		sa.Proposals = ProposalContainer{offered, chosen}
+	} else {
+		sa.Proposals = ProposalContainer{chosen}
+	}
+	m := &IKEMessage{IKEHeader: VGenHeader(), Payloads: IKEPayloadContainer{sa}}
+	snap := VCloneMessage(m)
+	keepOffered := VCloneMessage(&IKEMessage{IKEHeader: m.IKEHeader, Payloads: IKEPayloadContainer{&SecurityAssociation{Proposals: ProposalContainer{offered}}}})
+	tok := vr.FrameBegin(offered)
+	b1, err := m.Encode()
+	vr.Assert("c20.shared.encode.noerr", err == nil)
+	if err != nil {
+		return
+	}
+	vr.Assert("c20.shared.offered-not-written", vr.FrameUnchanged(tok))
+	vr.Assert("c20.shared.offered-unchanged", vEqProposal(keepOffered.Payloads[0].(*SecurityAssociation).Proposals[0], offered))
+	vr.Assert("c20.shared.msg-unchanged", VEqPayloadsExact(snap.Payloads, m.Payloads))
+	b2, err := m.Encode()
+	vr.Assert("c20.shared.encode2.noerr", err == nil)
+	if err == nil {
+		vr.Assert("c20.shared.deterministic", vr.EqBytes(b1, b2))
+	}
+}
